@@ -360,6 +360,87 @@ def run_random(shard, acc):
     body()
 
 
+# ----------------------------------------------------------------------------- deep nesting
+
+DEEP_SHAPES = {
+    'polish': [
+        ('N^k a', lambda k: 'N' * k + 'a'),
+        ('N^k a12', lambda k: 'N' * k + 'a12'),
+        ('N^k a + blank', lambda k: 'N' * k + 'a '),
+        ('K^k a^(k+1)', lambda k: 'K' * k + 'a' * (k + 1)),
+        ('(Ka)^k a', lambda k: 'Ka' * k + 'a'),
+        ('Vx N^k Fx', lambda k: 'Vx' + 'N' * k + 'Fx'),
+        ('N^k Fm', lambda k: 'N' * k + 'Fm'),
+        ('N^k (ill-formed: no leaf)', lambda k: 'N' * k),
+    ],
+    'standard': [
+        ('~^k A', lambda k: '~' * k + 'A'),
+        ('~^k A12', lambda k: '~' * k + 'A12'),
+        ('~^k A + blank', lambda k: '~' * k + 'A '),
+        ('(^k A (& B))^k', lambda k: '(' * k + 'A' + ' & B)' * k),
+        ('(A & ^k B )^k', lambda k: 'A & (' * k + 'B & B' + ')' * k),
+        ('~^k Fa', lambda k: '~' * k + 'Fa'),
+        ('~^k a = b', lambda k: '~' * k + 'a = b'),
+        ('(^k A & B )^k (ill-formed)', lambda k: '(' * k + 'A & B' + ')' * k),
+    ],
+}
+
+
+def _at_depth(d, f):
+    return _at_depth(d - 1, f) if d else f()
+
+
+def deep_outcome(notation, text, headroom, extra):
+    """Parse with the interpreter's recursion limit lowered to (current depth + headroom [+ alignment]) so that nesting
+    of a few dozen levels already exhausts the stack; the limit is restored afterwards.  'ok' | 'ParseError' | other."""
+    import sys
+    from pytableaux.errors import ParseError
+    from pytableaux.lang import Sentence
+    p = make_parser(notation)
+    frame, depth = sys._getframe(), 0
+    while frame is not None:
+        frame, depth = frame.f_back, depth + 1
+    old = sys.getrecursionlimit()
+
+    def go():
+        try:
+            r = p(text)
+        except ParseError:
+            return 'ParseError'
+        except RecursionError:
+            return 'RecursionError'
+        except Exception as e:
+            return type(e).__name__
+        return 'ok' if isinstance(r, Sentence) else 'not-a-sentence'
+    try:
+        sys.setrecursionlimit(depth + headroom)
+        return _at_depth(extra, go)
+    finally:
+        sys.setrecursionlimit(old)
+
+
+def run_deep(shard, acc):
+    notation = shard['notation']
+    headroom = shard['headroom']
+    for name, mk in DEEP_SHAPES[notation]:
+        if shard.get('shape', name) != name:
+            continue
+        shown = False
+        for k in range(1, headroom + 1):
+            for extra in range(0, 8):
+                text = mk(k)
+                o = deep_outcome(notation, text, headroom, extra)
+                acc.case(('deep', notation, name, k, extra, headroom), nontrivial=o != 'ok' or k > headroom // 8,
+                         classes=('deep-nesting', f'deep:{o}'),
+                         sample=None if shown or o == 'ok' else f'{notation}: {name} with k={k} under a stack of {headroom} frames -> {o}')
+                shown = shown or o != 'ok'
+                if o not in ('ok', 'ParseError'):
+                    acc.finding(f'C13|raises|{notation}|{o}|deep-nesting',
+                                dict(kind='deep', notation=notation, shape=name, k=k, extra=extra, headroom=headroom),
+                                f'{notation} parser, input {name} with k={k} (length {len(text)}) with {headroom}+{extra} stack frames left: '
+                                f'{o} instead of a sentence or ParseError')
+
+
 # ----------------------------------------------------------------------------- atheris
 
 def run_atheris(shard, acc):
@@ -415,6 +496,10 @@ def shards(tier, seed_):
         out += [dict(kind='exh', notation=notation, length=4, k=k, n=8) for k in range(8)]
     nr = 12 if tier == 'quick' else 48
     out += [dict(kind='rand', seed=seed_, shard=i, examples=500 if tier == 'quick' else 4000) for i in range(nr)]
+    for notation in ('polish', 'standard'):
+        for headroom in ((120, 250) if tier == 'quick' else (60, 120, 200, 333, 700)):
+            for shape, _ in DEEP_SHAPES[notation]:
+                out.append(dict(kind='deep', notation=notation, headroom=headroom, shape=shape))
     runs = 30000 if tier == 'quick' else 600000
     for notation in ('polish', 'standard'):
         for corpus in ('empty', 'seeded'):
@@ -423,10 +508,14 @@ def shards(tier, seed_):
 
 
 def run_shard(shard, acc):
-    {'exh': run_exhaustive, 'rand': run_random, 'atheris': run_atheris}[shard['kind']](shard, acc)
+    {'exh': run_exhaustive, 'rand': run_random, 'atheris': run_atheris, 'deep': run_deep}[shard['kind']](shard, acc)
 
 
 def replay(case):
+    if case['kind'] == 'deep':
+        mk = dict(DEEP_SHAPES[case['notation']])[case['shape']]
+        o = deep_outcome(case['notation'], mk(case['k']), case['headroom'], case['extra'])
+        return [] if o in ('ok', 'ParseError') else [(f"C13|raises|{case['notation']}|{o}|deep-nesting", f"{case['shape']} k={case['k']}: {o}")]
     if case['kind'] == 'string':
         return check_string(case['notation'], case['text'])[0]
     return check_string(case['notation'], case['text'], case.get('store'), case.get('auto', True), case.get('frozen', False),
@@ -434,6 +523,8 @@ def replay(case):
 
 
 def shrink_candidates(case):
+    if case['kind'] == 'deep':
+        return
     t = case['text']
     if case.get('history'):
         c = dict(case)
